@@ -8,7 +8,7 @@ PROPS = {
     },
     "C02": {
         "level": "proof",
-        "units": [{"kind": "verus", "name": "decomposition scanners + accessors vs RFC 3986 App. B spec"}],
+        "units": [{"kind": "verus", "name": "decomposition scanners + accessors vs RFC 3986 App. B spec", "specs": ["00_base", "01_chars", "02_authority", "03_types"]}],
         "assumptions": ["type invariant of references taken as precondition: ref_shape (text does not start with ':')",
                         "uri/ and iri/ impl blocks (field projections, generated new_unchecked/as_bytes) satisfy the trait contracts"],
         "not_covered": ["'each component is a valid value of its type' relies on grammar lemma G1 (not yet machine-checked)",
@@ -16,33 +16,33 @@ PROPS = {
     },
     "C03": {
         "level": "proof",
-        "units": [{"kind": "verus", "name": "authority scanners + AuthorityImpl accessors vs RFC 3986 3.2 spec"}],
+        "units": [{"kind": "verus", "name": "authority scanners + AuthorityImpl accessors vs RFC 3986 3.2 spec", "specs": ["00_base", "01_chars", "02_authority", "03_types"]}],
         "assumptions": ["type invariant of authorities taken as precondition: auth_shape ('[' only opens the host, only ':port' follows ']', one '@' at most)"],
         "not_covered": ["validity of each part as a value of its own type (grammar lemma G3)"],
     },
     "C11": {
         "level": "proof",
-        "units": [{"kind": "verus", "name": "AuthorityMutImpl: window invariant + splice postconditions of set_userinfo/set_host/set_port", "rlimit": 60}],
+        "units": [{"kind": "verus", "name": "AuthorityMutImpl: window invariant + splice postconditions of set_userinfo/set_host/set_port", "specs": ["00_base", "01_chars", "02_authority", "03_types", "05_compose"]}],
         "assumptions": ["arguments satisfy the structural consequences of their grammars (ui_shape, host_shape, port_shape) - taken as preconditions",
                         "the handle is created on a well-shaped authority (precondition of AuthorityMutImpl::new; its caller RiRefBufImpl::authority_mut is not yet under contract)"],
         "not_covered": ["uri/ iri/ AuthorityMut wrappers (one-line delegations)"],
     },
     "C12": {
         "level": "proof",
-        "units": [{"kind": "verus", "name": "segment_at / next_segment_from / previous_segment_from / SegmentsImpl::{next,next_back} / first / last / directory / parent vs the positional '/'-split"}],
+        "units": [{"kind": "verus", "name": "segment_at / next_segment_from / previous_segment_from / SegmentsImpl::{next,next_back} / first / last / directory / parent vs the positional '/'-split", "specs": ["00_base", "01_chars", "02_authority", "03_types", "04_path"]}],
         "assumptions": ["type invariant of paths as precondition: path_shape (no '?' and no '#')",
                         "trait-impl methods (Iterator::next, DoubleEndedIterator::next_back) and default methods that call PathImpl-bounded generics are proved on mechanically generated free-function twins with the same body; the method itself carries the same contract as an assumption"],
         "not_covered": ["file_name, segment_count and NormalizedSegments::len are iterator-adapter one-liners in the facade (outside Verus)"],
     },
     "C16": {
         "level": "proof",
-        "units": [{"kind": "verus", "name": "PathImpl::directory and RiRefImpl::base vs 'text up to and including the last / of the path'"}],
+        "units": [{"kind": "verus", "name": "PathImpl::directory and RiRefImpl::base vs 'text up to and including the last / of the path'", "specs": ["00_base", "01_chars", "02_authority", "03_types", "04_path"]}],
         "assumptions": [],
         "not_covered": ["suffix() (PctStr comparison + NormalizedSegments + push): not under contract", "validity of base() as a value of the same kind (grammar lemma)"],
     },
     "C20": {
         "level": "proof",
-        "units": [{"kind": "verus", "name": "ranges returned by the decomposers are ordered, disjoint, inside the input"}],
+        "units": [{"kind": "verus", "name": "ranges returned by the decomposers are ordered, disjoint, inside the input", "specs": ["00_base", "01_chars", "02_authority", "03_types", "04_path"]}],
         "assumptions": [],
         "not_covered": ["allocation-freedom is not expressible in Verus or Kani (no effect system) - NOT decided"],
     },
